@@ -152,3 +152,126 @@ def run_interruptible(fn, at, prefixes):
         return ("interrupted", None, at)
     finally:
         sys.settrace(old)
+
+
+def _container_slots(mods):
+    """(owner, attribute name) of the process-wide containers of the given modules: module
+    globals and class attributes that are dicts / lists / sets / deques or functools caches.
+    Slots, not objects: a rebinding (clear_cache assigning a new dict) is followed."""
+    import collections  # pylint: disable=import-outside-toplevel
+
+    kinds = (dict, list, set, collections.deque)
+    slots = []
+    for mod in mods:
+        for name, val in list(vars(mod).items()):
+            if name.startswith("__"):
+                continue
+            if isinstance(val, kinds) or callable(getattr(val, "cache_info", None)):
+                slots.append((mod, name))
+            elif isinstance(val, type) and getattr(val, "__module__", None) == mod.__name__:
+                for cname, cval in list(vars(val).items()):
+                    raw = getattr(cval, "__func__", cval)
+                    if isinstance(cval, kinds) or callable(getattr(raw, "cache_info", None)):
+                        slots.append((val, cname))
+    return slots
+
+
+def process_state_fingerprint(slots):
+    """A cheap fingerprint of process-wide library state: sizes of the top-level
+    containers and of what they hold one and two levels down."""
+    total = 0
+    for owner, name in slots:
+        try:
+            c = vars(owner).get(name)
+            c = getattr(c, "__func__", c)
+            if hasattr(c, "cache_info"):
+                total = total * 31 + c.cache_info().currsize
+                continue
+            total = total * 31 + len(c) + (id(c) & 0xFFFF)
+            items = list(c.values()) if isinstance(c, dict) else list(c)
+            for it in items[:48]:
+                if isinstance(it, (dict, list, set, tuple, frozenset)):
+                    total = total * 31 + len(it)
+                    inner = list(it.values()) if isinstance(it, dict) else list(it)
+                    for it2 in inner[:12]:
+                        if isinstance(it2, (dict, list, set)):
+                            total = total * 31 + len(it2)
+                            if isinstance(it2, list):
+                                for it3 in it2[-3:]:
+                                    if isinstance(it3, (dict, list, set)):
+                                        total = total * 31 + len(it3)
+        except Exception:  # pylint: disable=broad-except
+            pass
+        total &= (1 << 61) - 1
+    return total
+
+
+def state_change_points(fn, prefixes, mods, max_lines=2_000_000):
+    """Run fn() in a forked child under a line tracer and return the (1-based) indices of
+    the executed library lines after which the process-wide state fingerprint differed from
+    before: the places where an interruption would leave that state half updated.  The
+    parent's state is untouched."""
+    import os  # pylint: disable=import-outside-toplevel
+    import pickle  # pylint: disable=import-outside-toplevel
+    import sys  # pylint: disable=import-outside-toplevel
+
+    rfd, wfd = os.pipe()
+    pid = os.fork()
+    if pid == 0:
+        try:
+            os.close(rfd)
+            prefixes = tuple(prefixes)
+            count = [0]
+            slots = _container_slots(mods)
+            last = [process_state_fingerprint(slots)]
+            changes = []
+
+            def local(_frame, event, _arg):
+                if event == "line":
+                    count[0] += 1
+                    fp = process_state_fingerprint(slots)
+                    if fp != last[0]:
+                        last[0] = fp
+                        changes.append(count[0])  # the line executed just before changed the state
+                    if count[0] > max_lines:
+                        raise SimInterrupt()
+                return local
+
+            def glob(frame, event, _arg):
+                if event == "call" and frame.f_code.co_filename.startswith(prefixes):
+                    return local
+                return None
+
+            sys.settrace(glob)
+            try:
+                fn()
+            except BaseException:  # pylint: disable=broad-except
+                pass
+            finally:
+                sys.settrace(None)
+            os.write(wfd, pickle.dumps((changes[:5000], count[0])))
+        finally:
+            os._exit(0)  # pylint: disable=protected-access
+    os.close(wfd)
+    with os.fdopen(rfd, "rb") as f:
+        data = f.read()
+    os.waitpid(pid, 0)
+    if not data:
+        return [], 0
+    return pickle.loads(data)
+
+
+def permuta_modules():
+    import sys  # pylint: disable=import-outside-toplevel
+
+    return [m for n, m in sorted(sys.modules.items()) if (n == "permuta" or n.startswith("permuta.")) and m is not None]
+
+
+def guided_interrupt_at(fn, prefixes, pick):
+    """Where to interrupt fn(): right after a line that changed process-wide library state
+    (found by a dry run in a forked child), chosen by `pick` in [0, 1).  None when the call
+    changes no such state."""
+    changes, _total = state_change_points(fn, prefixes, permuta_modules())
+    if not changes:
+        return None
+    return changes[min(len(changes) - 1, int(pick * len(changes)))] + 1
